@@ -479,7 +479,8 @@ pub fn to_duration(num: &Number) -> Result<Duration, String> {
         return Err("Expected seconds".to_string());
     }
     let max = Numeric::from(i64::max_value() / 1000);
-    if num.value.abs() > max {
+    // Written so that NaN, which compares false with everything, is out of range too.
+    if !(num.value.abs() <= max) {
         return Err(format!(
             "Implementation error: Number is out of range ({:?})",
             max
